@@ -42,3 +42,18 @@ package graphsync
 //@   requires wfMsg(incoming) && (forall k cid.Cid :: k in incoming.blocks ==> isSumOf(k, blkData(incoming.blocks[k])))
 //@   modifies alloc, nMsgAccepted
 //@   callsite RequestManager.ProcessResponses: assert blkListOK($blks) && $p == sender
+
+//@ -- C21: the work-limit options record exactly the value they are given - independently of the other options and of the
+//@ -- order in which options are applied (each is a closure over its own argument only)
+//@ func MaxInProgressIncomingRequestsPerPeer.func1
+//@   requires gs != nil
+//@   modifies gs.maxInProgressIncomingRequestsPerPeer
+//@   ensures gs.maxInProgressIncomingRequestsPerPeer == maxInProgressIncomingRequestsPerPeer
+//@ func MaxInProgressIncomingRequests.func1
+//@   requires gs != nil
+//@   modifies gs.maxInProgressIncomingRequests
+//@   ensures gs.maxInProgressIncomingRequests == maxInProgressIncomingRequests
+//@ func MaxInProgressOutgoingRequests.func1
+//@   requires gs != nil
+//@   modifies gs.maxInProgressOutgoingRequests
+//@   ensures gs.maxInProgressOutgoingRequests == maxInProgressOutgoingRequests
